@@ -13,6 +13,10 @@ try:
     hooks = [l.strip() for l in open(os.path.join(VERIF, "hooks.txt")) if l.strip() and not l.startswith("#")]
 except OSError:
     hooks = []
+enabled = set(l.strip() for l in open(os.path.join(VERIF, "props", "ENABLED")) if l.strip())
+for pid in list(props.PROPS):
+    if pid not in enabled:
+        props.PROPS[pid] = dict(unclaimed="check under construction (harness exists, not yet validated on the repaired tree)")
 checks = []
 for pid in ids:
     P = props.PROPS.get(pid)
